@@ -14,6 +14,7 @@ What is feasible in CBMC (measured, 10 GB cap):
 BOUNDED: never counted as proved."""
 NAME = "k00_tree"
 ENGINE = "kani"
+TIER = "thorough"   # bounded twin of c00_tree (which is the unbounded proof); ~65 s, so thorough tier only
 TRAVERSAL = ("C01", "C02", "C03", "C04", "C07", "C09", "C17", "C19", "C20")
 HPROPS = TRAVERSAL + ("C11",)
 PROPS = HPROPS
